@@ -67,8 +67,7 @@ Proof.
 Qed.
 
 Lemma get_shape_sets st :
-  rep_times (fst (get_shape st)) = rep_times st /\ pe_dirs (fst (get_shape st)) = pe_dirs st /\
-  aff_edits (fst (get_shape st)) = aff_edits st.
+  rep_times (fst (get_shape st)) = rep_times st /\ pe_dirs (fst (get_shape st)) = pe_dirs st.
 Proof.
   unfold get_shape. destruct (shape_dirty st); [|auto].
   unfold compute_shape.
@@ -94,7 +93,7 @@ Proof.
   { pose proof (get_shape_again st sh') as G. rewrite E in G. cbn [fst snd] in G. apply G. reflexivity. }
   split; [exact Hwf1|]. split; [reflexivity|]. split; [exact Hagain|].
   split; [pose proof (get_shape_files st Hwf) as G; rewrite E in G; exact G|].
-  pose proof (get_shape_sets st) as G. rewrite E in G. cbn [fst] in G. destruct G as (G1 & G2 & _).
+  pose proof (get_shape_sets st) as G. rewrite E in G. cbn [fst] in G. destruct G as (G1 & G2).
   split; [exact G1|]. split; [exact G2|].
   destruct (get_shape_sound s1 sh' Hwf1) as (S & T & V & r & c & [Hg Hrc] & ->); [rewrite Hagain; reflexivity|].
   destruct Hwf1 as [Hwf10 _].
@@ -109,11 +108,8 @@ Lemma get_affine_clean st1 sh st2 i0 col :
   (1 < length (files_info st1) / nvols_of_shape sh ->
    col = Some (i0, f_id (e_file (nth 1 (files_info st1) dflt_entry)))).
 Proof.
-  intros Hs. unfold get_affine. rewrite Hs.
-  destruct (1 <? length (files_info st1) / nvols_of_shape sh) eqn:E.
-  - intros H. injection H as <- <- <-. cbn. repeat split; auto.
-  - intros H. injection H as <- <- <-. repeat split; auto.
-    intros G. apply Nat.ltb_lt in G. congruence.
+  intros Hs. unfold get_affine. rewrite Hs. intros H. injection H as <- <- <-.
+  repeat split; auto. intros G. apply Nat.ltb_lt in G. rewrite G. reflexivity.
 Qed.
 
 Lemma eqb_eqb a b : Bool.eqb a (Bool.eqb a b) = b.
